@@ -269,26 +269,36 @@ def impl_or_none(c):
     return None if m is None else repr(R.canon(m))
 
 
-def _fresh_result(sx, native, name, ov):
+def _gate_set(native):
+    """0: no native gates (anonymous gates); 1: the harness gate set; 2: the same set without the bounding gates
+    prepare_all / measure_all (a custom gate set that does not define them)."""
     from .gates import NATIVE
-    fresh = build(sx, inject_pulses=NATIVE if native else None)
+    if not native:
+        return None
+    if native == 2:
+        return {k: v for k, v in NATIVE.items() if k not in ("prepare_all", "measure_all")}
+    return NATIVE
+
+
+def _fresh_result(sx, native, name, ov):
+    fresh = build(sx, inject_pulses=_gate_set(native))
     try:
         return None, _result_key(_run_op(name, fresh, ov))
     except Exception as ex:
         return ex, None
 
 
-def c11_history(tname: str, native: bool, op1: int, op2: int, op3: int, **leaves) -> str:
+def c11_history(tname: str, native: int, op1: int, op2: int, op3: int, **leaves) -> str:
     """Run up to three library calls on one shared circuit object.  After each call the deep snapshot of
     the circuit must be unchanged, and each result must equal the result of the same call on a freshly
     built copy."""
     from .gates import NATIVE, wrap_for_emulator
     sx = program(tname, leaves)
-    if native:
+    if native == 1:
         sx = wrap_for_emulator(sx)
     ov = _overrides(sx, 1, 1, 1)
     try:
-        shared = build(sx, inject_pulses=NATIVE if native else None)
+        shared = build(sx, inject_pulses=_gate_set(native))
     except JaqalError:
         return "~rejected at build"
     except Exception as ex:
